@@ -27,11 +27,13 @@ claim('C11',
       'norm(axis=<data-length tuple>)); seed threading Circuit.measure -> MeasureGate -> measure_quantum_vector (S); MeasureGate.forward '
       'takes bitstr / probability / collapsed state from one call with its own index and generator (D4); index shifting updates the '
       'gate object too (D3); the returned bit string is the big-endian expansion matching the C-order flattening (M1); a computed axis '
-      'permutation is not undone by re-applying it (M2). '
-      'Born marginals, renormalisation and repeatability are value-level and NOT decided.',
+      'permutation is not undone by re-applying it (M2); the Born-rule / collapse structure: probabilities are the squared modulus summed '
+      'over the unmeasured groups, the measured qubits are the kept groups, the outcome is drawn with p=prob, the collapsed state copies the '
+      'selected slice onto a zero buffer and divides by sqrt(prob[outcome]) of the same outcome (M3). '
+      'Numerical normalisation and repeatability over histories are value-level and NOT decided.',
       'Trusted: NumPy API contract for linalg.norm(axis=); ast name resolution.',
       'ast def-use chase of axis arguments through tuple-returning callees; must-taint seed dataflow',
-      'DESIGN.md 4 (K/N1, S), 5 C11')
+      'DESIGN.md 4 (K/N1, S, M1-M3), 5 C11')
 claim('C18',
       'Decides certain-defect clauses for the catalogue modules: no self-cancelling `a / b*b` normalisation (K2); no unguarded x*log x '
       'in the closed-form Werner/isotropic expressions (F1) and their masked updates stay in one index space (MS1); a `return_dm` '
